@@ -24,7 +24,7 @@ Obs == [c |-> {<<k[1], k[2]>> \o Ent(cache'[k]) : k \in {kk \in AllKeys : cache'
 Det(msg) == /\ Cardinality(RelAllowed(msg, desc, waiting)) = 1
             /\ msg.tx \notin PrefTexts
 
-GInit == Init /\ hist = <<[act |-> "descr", desc |-> desc, ids |-> NameMaps(desc)]>>
+GInit == Init /\ hist = <<[act |-> "descr", desc |-> desc, variant |-> variant, ids |-> NameMaps(desc)]>>
 GNext ==
   \/ \E msg \in {mm \in Msgs : mm.ident \in GIdents /\ mm.action \in GActions} :
         /\ Det(msg)
@@ -39,7 +39,10 @@ GNext ==
   \/ \E rk \in {r \in ReqKeys : r[2] \in GIdents} : Expect(rk) /\ hist' = Append(hist, [act |-> "expect", rk |-> rk, exp |-> Obs])
   \/ Tick /\ hist' = Append(hist, [act |-> "tick", exp |-> Obs])
   \/ Idle /\ hist' = Append(hist, [act |-> "idle", exp |-> Obs])
-  \/ \E d \in Descs : Describe(d) /\ hist' = Append(hist, [act |-> "describe", desc |-> d, ids |-> NameMaps(d), exp |-> Obs])
+  \/ \E d \in Descs, v \in Variants :
+        Describe(d, v) /\ hist' = Append(hist, [act |-> "describe", desc |-> d, variant |-> v, ids |-> NameMaps(d), exp |-> Obs])
+  \/ \E d \in OtherDescs, v \in Variants :
+        OtherDescribes(d, v) /\ hist' = Append(hist, [act |-> "other", desc |-> d, variant |-> v, ids |-> NameMaps(desc), exp |-> Obs])
 GSpec == GInit /\ [][GNext]_<<vars, hist>>
 
 GBound == Bound
@@ -59,6 +62,7 @@ GenN1 == {<<"m1", "target">>, <<"m1", "_target">>, <<"m2", "_value">>}
 GenN2 == {<<"m1", "target">>, <<"m1", "_target">>, <<"m1", "value">>, <<"m2", "_value">>, <<"m2", "_target">>}
 GenInitN == {GenN1}
 GenDescsN == {GenN1, GenN2}
+GIdentsI == {<<"m1", "value">>, <<"m2", "x">>}          \* isolation of two clients in one process
 GIdentsN == {<<"m1", "target">>, <<"m1", "_target">>, <<"m1", "">>, <<"m2", "_value">>, <<"m2", "">>}
 GLevelsN == {NodeL, <<"m1", "">>, <<"m1", "target">>, <<"m1", "_target">>}
 (* identifier classes: known, shorthand with / without default accessible, custom name,   *)
